@@ -60,6 +60,10 @@ init_crc16_table		(uint16_t		table[256],
 
 #define RI_PACKET_REPEATS	(1 << 7)
 
+/* In vbi_idl_demux.ri only: we wait for a repeat because another
+   repeat was corrupt, but the packet may have been delivered before. */
+#define RI_MAYBE_DELIVERED	(1 << 8)
+
 /* 6.5.7.1 Dummy bytes */
 #define SKIP_DUMMY_BYTES	1
 
@@ -124,7 +128,23 @@ idl_a_demux_feed		(vbi_idl_demux *	dx,
 	}
 
 	if (0 != crc) {
+		int maybe_delivered;
+
+		/* A corrupt repeat while we are not waiting for one:
+		   we got this packet already, or missed it altogether.
+		   The continuity index will tell. */
+		maybe_delivered = 0;
+		if (0 != (ri & 0xF)
+		    && (dx->ri < 0 || (dx->ri & RI_MAYBE_DELIVERED)))
+			maybe_delivered = RI_MAYBE_DELIVERED;
+
 		if (0 == (ri & RI_PACKET_REPEATS)) {
+			if (maybe_delivered) {
+				dx->ri = -1;
+
+				return FALSE;
+			}
+
 			/* Packet is corrupt and won't repeat. */
 
 			dx->ci = -1;
@@ -136,20 +156,34 @@ idl_a_demux_feed		(vbi_idl_demux *	dx,
 		} else {
 			/* Try again. */
 
-			dx->ri = ri + 1;
+			dx->ri = (ri + 1) | maybe_delivered;
 
 			return FALSE;
 		}
+	}
+
+	if (0 != (ri & 0xF)
+	    && dx->ci >= 0
+	    && 0 == (((ci + 1) ^ dx->ci) & 0xFF)) {
+		/* Repeat of the packet delivered last. */
+
+		dx->ri = -1;
+
+		return TRUE;
 	}
 
 	if (dx->ri >= 0) {
 		if (0 != ((ri ^ dx->ri) & 0xF)) {
 			/* Repeat packet(s) lost. */
 
-			dx->ci = -1;
-			dx->ri = -1;
+			if (0 != (ri & 0xF)
+			    || 0 == (dx->ri & RI_MAYBE_DELIVERED)) {
+				dx->ci = -1;
 
-			dx->flags |= VBI_IDL_DATA_LOST;
+				dx->flags |= VBI_IDL_DATA_LOST;
+			}
+
+			dx->ri = -1;
 
 			if (0 != (ri & 0xF)) {
 				/* Discard repeat packet. */
@@ -160,6 +194,9 @@ idl_a_demux_feed		(vbi_idl_demux *	dx,
 		/* Discard repeat packet. */
 		return TRUE;
 	}
+
+	/* This packet is intact, its repeats are not needed. */
+	dx->ri = -1;
 
 	if (dx->ci >= 0) {
 		if (0 != ((ci ^ dx->ci) & 0xFF)) {
